@@ -189,6 +189,8 @@ class Executor(object):
         self.pc = []
         self.fresh_n = itertools.count()
         self.trace = []
+        if not hasattr(self, 'path_traces'):
+            self.path_traces = set()
         self.loop_counter = {}
         self.frames = []
         self.mode = 'code'
@@ -531,6 +533,8 @@ class Executor(object):
         self.fn_node = fn
         self.top_fn_node = fn
         self.check_signature(contract, fn)
+        from . import roles
+        self.local_aliases = roles.aliases(contract.key, self.twin, fn)      # contract's name for a local -> its current name
         while self.work:
             prefix = self.work.pop()
             self.reset_path(prefix)
@@ -600,6 +604,15 @@ class Executor(object):
             return
         self.check_post(contract, result)
 
+    def record_trace(self, end):
+        """The call skeleton of the finished path: callees under contract in call order with their outcome kind, then how the path
+        ended.  Used relationally (C16): the two twins must have the same set of skeletons."""
+        ev = []
+        for e in self.trace:
+            out = e.get('outcome')
+            ev.append((e['callee'], 'pending' if out is None else (out[0] if out[0] == 'return' else 'raise:%s' % out[1])))
+        self.path_traces.add((tuple(ev), end))
+
     def cover(self, label, contract):
         if self.emitting():
             self.covers.append(('%s/cover[%s]' % (self.current_name, label), list(self.pc), set(contract.props)))
@@ -636,6 +649,7 @@ class Executor(object):
             f = self.eval_clause(c, scope)
             self.oblige(c.label, f, self.props_of(c, contract), 'post', expr=c.expr, meta={'result': self.describe(result)})
         self.check_frame(contract, 'frame')
+        self.record_trace('return')
         self.cover('normal-exit', contract)
 
     def check_result_type(self, contract, result):
@@ -666,6 +680,7 @@ class Executor(object):
             f = self.eval_clause(c, scope)
             self.oblige(c.label, f, self.props_of(c, contract), 'exc', expr=c.expr, meta={'exc': exc.cls})
         self.check_frame(contract, 'frame[%s]' % exc.cls)
+        self.record_trace('raise:%s' % exc.cls)
         self.cover('raise[%s]' % exc.cls, contract)
 
     def check_frame(self, contract, label):
@@ -725,6 +740,7 @@ class Executor(object):
         if isinstance(st.value, ast.Constant):
             return                 # docstring
         if isinstance(st.value, ast.Yield):
+            self.trace.append({'callee': '<yield>', 'site': self.where(), 'args': {}, 'outcome': ('return', None)})
             return self.do_yield(self.eval(st.value.value) if st.value.value else NONE)
         if isinstance(st.value, ast.YieldFrom):
             return self.do_yield_from(st.value.value)
@@ -789,9 +805,10 @@ class Executor(object):
             decl = dsl.CLASSES.get(o.cls)
             if target.attr not in o.fields:
                 if decl is not None and target.attr not in decl.fields and not getattr(self, 'in_init', False):
-                    # an attribute that is not part of the declared state of the class
-                    self.oblige('new-attribute[%s.%s]' % (o.cls, target.attr), z3.BoolVal(False), set(self.contract.props), 'frame',
-                                expr='%s has no state other than its declared fields' % o.cls)
+                    # an attribute that is not part of the declared state of the class: the contracts cannot speak about it.
+                    # That is not evidence of a violation -- the function is undecided until the class declaration is extended.
+                    raise Unsupported('%s.%s is written but is not part of the declared state of %s (stale class declaration)'
+                                      % (o.cls, target.attr, o.cls))
             self.world.on_field_write(self, o, target.attr, v)
             self.world.guarded_access(self, o, target.attr, target)
             o.fields[target.attr] = v
@@ -1102,9 +1119,10 @@ class Executor(object):
             self.yield_index = VInt(z3.Int(self.fresh_name('_yi')))
             self.assume(self.yield_index.term >= 0)
         # locals
+        rev = {cur: name for name, cur in getattr(self, 'local_aliases', {}).items()}
         for n in sorted(names):
-            if n in self.contract.locals_types:
-                self.env[n] = self.fresh(self.contract.locals_types[n], n)
+            if rev.get(n, n) in self.contract.locals_types:
+                self.env[n] = self.fresh(self.contract.locals_types[rev.get(n, n)], n)
             elif n in self.env:
                 v = self.env[n]
                 if isinstance(v, (VObj, VLock, VClass, VFunc, VModule)):
@@ -1130,8 +1148,8 @@ class Executor(object):
                 for c in calls2:
                     locs.extend(self.call_write_set(c))
                 for n in sorted(names2):
-                    if n in self.contract.locals_types:
-                        cenv[n] = self.fresh(self.contract.locals_types[n], n)
+                    if rev.get(n, n) in self.contract.locals_types:
+                        cenv[n] = self.fresh(self.contract.locals_types[rev.get(n, n)], n)
                     elif n in cenv:
                         v = cenv[n]
                         if isinstance(v, (VObj, VLock, VClass, VFunc, VModule)):
@@ -1306,6 +1324,10 @@ class Executor(object):
             if isinstance(base, VModule):
                 v = self.world.module_attr(self, base, fnode.attr)
                 return self._static_of_value(v, fnode)
+            if isinstance(base, VLock) and fnode.attr in ('acquire', 'release'):
+                if base.name is None:
+                    raise Unsupported('write set: anonymous lock at line %s' % fnode.lineno)
+                return ('ghost', None, None, ['held_' + base.name])
             return ('pure', None, None, None)            # methods of bytes / str / tuples / constant dicts / store references
         if isinstance(fnode, ast.Name):
             if fnode.id in self.env:
@@ -1422,6 +1444,7 @@ class Executor(object):
                 var1 = self.eval_spec_expr(spec.variant, nxt, seq)
                 self.oblige(tag + '/variant', z3.And(to_real(var1) < to_real(var0), to_real(var0) >= 0), set(self.contract.props), 'loop',
                             expr='variant decreases and is bounded below: ' + spec.variant)
+            self.record_trace('back-edge:%s' % self.loop_header(st))
             raise PathEnd()
         else:
             self.exec_block(st.orelse)
@@ -1439,6 +1462,9 @@ class Executor(object):
             scope['_i'] = idx
         for p, v in self.entry_params.items():
             scope['_0' + p] = v            # entry value of a parameter the body reassigns
+        for name, cur in getattr(self, 'local_aliases', {}).items():
+            if name not in scope and cur in scope:
+                scope[name] = scope[cur]   # a renamed local, recognised by its role (pyvc/roles.py)
         return scope
 
     def assert_invariant(self, spec, label, idx, seq):
